@@ -43,10 +43,11 @@ from pyxel.calibration.fitting_datatree import ModelFittingDataTree
 class Fake(ModelFittingDataTree):
     def __init__(self, variables): self._variables = variables
 vs = [ParameterValues(key='a.b.vec', values=['_', '_', '_'], boundaries=[1.0, 100.0], logarithmic=True), ParameterValues(key='a.b.s1', values='_', boundaries=[0.0, 5.0]),
-      ParameterValues(key='a.b.s2', values='_', boundaries=[10.0, 1000.0], logarithmic=True), ParameterValues(key='a.b.v2', values=['_', '_'], boundaries=[[0, 1], [2, 3]])]
+      ParameterValues(key='a.b.s2', values='_', boundaries=[10.0, 1000.0], logarithmic=True), ParameterValues(key='a.b.v2', values=['_', '_'], boundaries=[[0, 1], [2, 3]]),
+      ParameterValues(key='a.b.v3', values=['_', '_'], boundaries=[[1.0, 10.0], [100.0, 1000.0]], logarithmic=True)]
 f = Fake(vs)
-d = np.array([0.0, 1.0, 2.0, 4.5, 1.5, 0.25, 2.5])
-exp = np.array([1.0, 10.0, 100.0, 4.5, 10 ** 1.5, 0.25, 2.5])
+d = np.array([0.0, 1.0, 2.0, 4.5, 1.5, 0.25, 2.5, 0.5, 2.5])
+exp = np.array([1.0, 10.0, 100.0, 4.5, 10 ** 1.5, 0.25, 2.5, 10 ** 0.5, 10 ** 2.5])
 got1, got2 = f.convert_to_parameters(d), f.convert_to_parameters(np.stack([d, d]))
 lo, hi = f._set_bound()
 calls = []
@@ -57,8 +58,8 @@ f.update_processor.__func__  # exists
 import unittest.mock as m
 with m.patch('copy.deepcopy', lambda p: p):
     f.update_processor(parameter=exp, processor=P())
-expc = [('a.b.vec', [1.0, 10.0, 100.0]), ('a.b.s1', 4.5), ('a.b.s2', 10 ** 1.5), ('a.b.v2', [0.25, 2.5])]
-VIOLATED = (not np.allclose(got1, exp) or not np.allclose(got2, np.stack([exp, exp])) or not np.allclose(lo, [0, 0, 0, 0, 1, 0, 2]) or not np.allclose(hi, [2, 2, 2, 5, 3, 1, 3])
+expc = [('a.b.vec', [1.0, 10.0, 100.0]), ('a.b.s1', 4.5), ('a.b.s2', 10 ** 1.5), ('a.b.v2', [0.25, 2.5]), ('a.b.v3', [10 ** 0.5, 10 ** 2.5])]
+VIOLATED = (not np.allclose(got1, exp) or not np.allclose(got2, np.stack([exp, exp])) or not np.allclose(lo, [0, 0, 0, 0, 1, 0, 2, 0, 2]) or not np.allclose(hi, [2, 2, 2, 5, 3, 1, 3, 1, 3])
             or [(k, v) for k, v in calls] != [(k, v) for k, v in expc])
 DETAIL = f'convert -> {got1.tolist()}; bounds {lo} {hi}; update calls {calls}'
 """, "expect": "decision-vector components are assigned to variables in declaration order; log variables are 10**x"}
